@@ -4,13 +4,22 @@ import json, os, re, sys
 V = os.path.dirname(os.path.dirname(os.path.abspath(__file__)))
 sys.path.insert(0, V)
 props = [json.loads(l) for l in open(os.path.join(V, "properties.jsonl"))]
-meta = json.load(open(os.path.join(V, "tools", "manifest_meta.json")))
+import ast as _ast
+def _meta(path):
+    tree = _ast.parse(open(path).read())
+    for node in tree.body:
+        if isinstance(node, _ast.Assign) and any(getattr(t, "id", None) == "MANIFEST" for t in node.targets):
+            return _ast.literal_eval(node.value)
+    return {}
+na_reasons = json.load(open(os.path.join(V, "tools", "na_reasons.json")))
 checks, na = [], []
 for p in props:
     pid = p["id"]
     path = os.path.join(V, "checks", pid.lower() + ".py")
-    m = meta.get(pid, {})
-    if os.path.exists(path) and m.get("claimed", True) and "text" in m:
+    m = _meta(path) if os.path.exists(path) else {}
+    if pid in na_reasons:
+        m = {"na_reason": na_reasons[pid]}
+    if os.path.exists(path) and "text" in m:
         src = open(path).read()
         level = re.search(r'^LEVEL\s*=\s*"(\w+)"', src, re.M).group(1)
         checks.append({
